@@ -9,6 +9,9 @@ import (
 
 var fanins = []string{"dosnode.mergeErrors", "dosnode.fanIn", "utils.MergeErrors", "onchain.merge", "onchain.mergeError", "p2p.merge", "dkg.mergeErrors"}
 
+// decisions of recoverSign's loop body resolved to the path that recovers and reports
+const recoverOK = "pick=if_sign_==_nil:1;if_own_==_nil:0;if_len(signShares)_>=_nbThreshold:0;if_err_!=_nil:1;if_t_<_0:1"
+
 func faninLine(f, in0, in1, cons, ctl string, reps int) string {
 	out := f + ".out"
 	if f == "dosnode.fanIn" {
@@ -94,6 +97,11 @@ func gen(tier string, rng *h.Rng, emit func(string)) {
 		"sc p=query.sys keep=dosnode.reportQueryResult feed=dosnode.recoverSign.out:sc cons=- ctl=%s pick=if_err_!=_nil:0 obs=dosnode.reportQueryResult.errc reps=4",
 		"sc p=query.sys keep=dosnode.reportQueryResult feed=dosnode.recoverSign.out:c cons=dosnode.reportQueryResult.errc:all ctl=%s obs=dosnode.reportQueryResult.errc reps=4",
 		"sc p=query.sys keep=dosnode.recoverSign feed=dosnode.dispatchSign.out:ssc cons=dosnode.recoverSign.errc:n1 ctl=%s pick=if_sign_==_nil:0 obs=dosnode.recoverSign.out;dosnode.recoverSign.errc reps=4",
+		// the success path (valid shares, the first one completes the threshold) and the drain loop after it
+		// (/repo 3a1c0bc): late shares are taken until the input closes or the context ends; the fed channel is
+		// observed (closed = the feeder got rid of all its shares)
+		"sc p=query.sys keep=dosnode.recoverSign feed=dosnode.dispatchSign.out:sssc cons=dosnode.recoverSign.out:all;dosnode.recoverSign.errc:all ctl=%s " + recoverOK + " obs=dosnode.dispatchSign.out;dosnode.recoverSign.out;dosnode.recoverSign.errc reps=4",
+		"sc p=query.sys keep=dosnode.recoverSign feed=dosnode.dispatchSign.out:sss cons=dosnode.recoverSign.errc:all ctl=%s " + recoverOK + " obs=dosnode.dispatchSign.out;dosnode.recoverSign.out;dosnode.recoverSign.errc reps=4",
 		"sc p=query.url keep=dosnode.genQueryResult feed=dosnode.choseSubmitter.outs#0:sc cons=- ctl=%s pick=if_err_!=_nil:0 obs=dosnode.genQueryResult.out;dosnode.genQueryResult.errc reps=3",
 		"sc p=grouping keep=dkg.genPub feed=- cons=dkg.genPub.errc:ctx;dkg.genPub.out:ctx ctl=%s pick=if_index_==_-1:0 obs=dkg.genPub.out;dkg.genPub.secrc;dkg.genPub.errc reps=3",
 	}
